@@ -8,7 +8,7 @@ Definition is_gone_or_serial_wire (q : pos) : bool :=
 
 Record Inv (s : st) : Prop := {
   inv_handed : handed s = true -> deadline s <= now s /\ (evt s = true \/ is_gone_or_serial_wire (p s) = true);
-  inv_evt : evt s = true -> handed s = true /\ deadline s <= now s;
+  inv_evt : evt s = true -> deadline s <= now s;
   inv_once : (length (writes s) <= 1)%nat /\
              (writes s <> [] -> exists g, p s = OnWire g);
   inv_disc : (forall g, In g (discards s) -> p s = OnWire (Some g)) /\
@@ -32,7 +32,7 @@ Ltac inv_step_tac :=
 Lemma step_inv s l s' : Inv s -> step s l = Some s' -> Inv s'.
 Proof.
   intros [Ih Ie Io Id Is Inn] H. destruct Io as [Io1 Io2]. destruct Id as [Id1 Id2].
-  destruct l as [dl|t| | | |tag| | | | | | |tag]; cbn in H.
+  destruct l as [dl|t| | | | |tag| | | | | | |tag]; cbn in H.
   - (* Enter *)
     destruct (p s) eqn:P; try discriminate.
     destruct (Z.ltb_spec dl (now s)); inv_step_tac; constructor; cbn; try discriminate.
@@ -44,7 +44,7 @@ Proof.
   - (* Tick *)
     destruct (Z.ltb_spec t (now s)); [discriminate|]. inv_step_tac. constructor; cbn.
     + intros X. destruct (Ih X) as [A B]. split; [lia|exact B].
-    + intros X. destruct (Ie X) as [A B]. split; [exact A|lia].
+    + intros X. specialize (Ie X). lia.
     + split; assumption.
     + split; assumption.
     + exact Is.
@@ -53,12 +53,16 @@ Proof.
     destruct (not_entered (p s) || (now s <? deadline s) || evt s || completed s) eqn:G; [discriminate|].
     apply orb_false_iff in G as [G G4]. apply orb_false_iff in G as [G G3]. apply orb_false_iff in G as [G1 G2].
     inv_step_tac. constructor; cbn.
-    + intros _. split; [lia|left; reflexivity].
-    + intros _. split; [reflexivity|lia].
+    + intros X. destruct (Ih X) as [A _]. split; [exact A|left; reflexivity].
+    + intros _. lia.
     + split; [exact Io1|exact Io2].
     + split; [exact Id1|]. intros g X. destruct (Id2 g X) as [Y _]. split; [exact Y|reflexivity].
     + discriminate.
     + intros _. reflexivity.
+  - (* TimedOut *)
+    destruct (evt s) eqn:E; [|discriminate]. destruct (completed s); [discriminate|]. cbn in H. inv_step_tac.
+    constructor; cbn; rewrite ?E; try assumption; try (split; assumption).
+    intros _. split; [exact (Ie eq_refl)|left; reflexivity].
   - (* Complete *)
     destruct (not_entered (p s) || completed s); [discriminate|]. inv_step_tac.
     constructor; cbn; try assumption; try (split; assumption).
@@ -105,7 +109,7 @@ Proof.
     destruct (p s) eqn:P; try discriminate.
     + destruct (Z.leb_spec (deadline s - now s) 0); [|discriminate]. inv_step_tac. constructor; cbn; try discriminate; try exact Inn.
       * intros _. split; [lia|right; reflexivity].
-      * intros X. split; [reflexivity|lia].
+      * intros X. lia.
       * split; [exact Io1|]. intros X. destruct (Io2 X) as [g Y]. discriminate.
       * split.
         -- intros g X. specialize (Id1 g X). discriminate.
@@ -122,7 +126,7 @@ Proof.
     destruct ((now s <? deadline s) || completed s) eqn:G; [discriminate|].
     apply orb_false_iff in G as [G1 G2]. inv_step_tac. constructor; cbn; try discriminate; try exact Inn.
     + intros _. split; [lia|right; reflexivity].
-    + intros X. split; [reflexivity|lia].
+    + intros X. lia.
     + split; [exact Io1|]. intros _. eexists. reflexivity.
     + split.
       * intros g X. specialize (Id1 g X). discriminate.
@@ -178,7 +182,7 @@ Proof. intros H Hin. exact (proj1 (inv_disc s (run_inv ls _ _ (inv_init t) H)) g
    is open: the notifier then queues the discard naming the request's tag *)
 Lemma fire_queues_discard s s1 s2 tag : p s = OnWire (Some tag) -> subscribed s = true -> tagkey s = true ->
   conn_open s = true -> step s Fire = Some s1 -> step s1 Notify = Some s2 ->
-  owed s2 = Some tag /\ handed s2 = true.
+  owed s2 = Some tag /\ evt s2 = true.
 Proof.
   intros P Sb Tk Co H1 H2. cbn in H1.
   destruct (not_entered (p s) || (now s <? deadline s) || evt s || completed s); [discriminate|].
@@ -191,9 +195,10 @@ Lemma owed_persists s l s' g : Inv s -> step s l = Some s' -> owed s = Some g ->
   owed s' = Some g \/ l = Discard g \/ l = ConnClosed.
 Proof.
   intros I H O. destruct (proj2 (inv_disc s I) g O) as [P E].
-  destruct l as [dl|t| | | |tag| | | | | | |tag]; cbn in H; rewrite ?P, ?E in H; cbn in H; try discriminate.
+  destruct l as [dl|t| | | | |tag| | | | | | |tag]; cbn in H; rewrite ?P, ?E in H; cbn in H; try discriminate.
   - destruct (t <? now s); [discriminate|]. inversion H; subst. left. exact O.
   - rewrite !orb_true_r in H. discriminate.
+  - destruct (completed s); [discriminate|]. cbn in H. inversion H; subst. left. exact O.
   - destruct (completed s); [discriminate|]. inversion H; subst. left. exact O.
   - destruct (notif s); [|discriminate]. inversion H; subst. cbn. left.
     destruct (tagkey s && conn_open s); [|exact O]. destruct (proj2 (inv_disc s I) g O) as [P2 _].
@@ -217,6 +222,7 @@ Proof.
       { destruct l; cbn in E; rewrite ?Pa in E; cbn in E; try discriminate.
         - destruct (t <? now a); [discriminate|]. inversion E; subst. auto.
         - destruct ((now a <? deadline a) || evt a || completed a); [discriminate|]. inversion E; subst. cbn. auto.
+        - destruct (evt a && negb (completed a)); [|discriminate]. inversion E; subst. auto.
         - destruct (completed a); [discriminate|]. inversion E; subst. auto.
         - destruct (notif a); [|discriminate]. inversion E; subst. cbn. auto.
         - inversion E; subst. auto.
